@@ -40,7 +40,7 @@ def register(reg):
     P = dict(x0="float", y0="float", x1="float", y1="float", x2="float", y2="float")
     TCW_ = "(0 if (psn / l) <= 0 else (1 if (psn / l) >= 1 else (psn / l)))"
     TC = "(0 if %s <= 0 else (1 if %s >= %s else %s / %s))" % (DOT, DOT, L2, DOT, L2)
-    reg.add(Spec(G + "distance_to_segment", P, "float", requires=NN,
+    reg.add(Spec(G + "distance_to_segment", P, "float", requires=NN, denotes="dseg",
                  cases=dict(degenerate="x1 == x2 and y1 == y2", proper="x1 != x2 or y1 != y2"),
                  at={"l = math.sqrt((x2 - x1) * (x2 - x1) + (y2 - y1) * (y2 - y1))": [
                          ("length-squared", "l >= 0 and l * l == %s" % L2),
@@ -59,11 +59,11 @@ def register(reg):
                          "use distrib(psn / l, 1, x1 - x2)", "use distrib(psn / l, 1, y1 - y2)",
                          ("clamp-x-is-clamping-the-parameter", "xproj == x1 + (0 if (psn / l) <= 0 else (1 if (psn / l) >= 1 else (psn / l))) * (x2 - x1)"),
                          ("clamp-y-is-clamping-the-parameter", "yproj == y1 + (0 if (psn / l) <= 0 else (1 if (psn / l) >= 1 else (psn / l))) * (y2 - y1)")]},
-                 ensures_local=[("distance-to-a-point-of-the-segment",
+                 ensures_local=[("distance-to-the-single-point", "implies(x1 == x2 and y1 == y2, result * result == (x0 - x1) * (x0 - x1) + (y0 - y1) * (y0 - y1))"),
+                                ("distance-to-a-point-of-the-segment",
                            "implies(x1 != x2 or y1 != y2, result * result == (x0 - (x1 + TCW * (x2 - x1))) * (x0 - (x1 + TCW * (x2 - x1))) + "
                            "(y0 - (y1 + TCW * (y2 - y1))) * (y0 - (y1 + TCW * (y2 - y1))))".replace("TCW", TCW_))],
                  ensures=[("non-negative", "not isnan(result) and result >= 0"),
-                          ("distance-to-the-single-point", "implies(x1 == x2 and y1 == y2, result * result == (x0 - x1) * (x0 - x1) + (y0 - y1) * (y0 - y1))"),
                           ("zero-at-the-first-end", "implies(x0 == x1 and y0 == y1, result == 0)"),
                           ("zero-at-the-second-end", "implies(x0 == x2 and y0 == y2, result == 0)")]))
 
@@ -76,35 +76,48 @@ def register(reg):
     L = "old(pts(track))"
     reg.auto_inline |= {"tracklib.core.track:Track.getObsList", "tracklib.core.track:Track.__init__"}
     # Track(list, user_id=.., track_id=.., base=..): inline; uid / tid / base are opaque values
+    REC = "RECB"
+
+    def seg(k, r, j):
+        return "dseg(X(track, %s), Y(track, %s), X(%s, %s), Y(%s, %s), X(%s, %s + 1), Y(%s, %s + 1))" % (k, k, r, j, r, j, r, j, r, j)
     MEMBER = "any(obs(result, q) is %s[p] and %%s for p in range(0, %s))" % (L, n)
     reg.add(Spec(S + "douglas_peucker", dict(track="Track", eps="float"), "Track", decreases="npts(track)",
+                 ghost=dict(K0="int"), ghost_calls={"douglas_peucker#1": dict(K0="K0"), "douglas_peucker#2": dict(K0="K0 - imax")},
                  requires=["all(implies(a < b, obs(track, a) is not obs(track, b)) for a in range(0, %s) for b in range(0, %s))" % (n, n),
                            "not isnan(eps) and eps > 0",
                            "all(not isnan(X(track, r)) and not isnan(Y(track, r)) for r in range(0, %s))" % n],
                  fresh=["Track"],
-                 hints=[("left-part-indices", "implies((npts(track) > 2 and not (dmax < eps)), all(idxin(%s, obs(ret1_douglas_peucker, q)) == idxin(pts(XY1), obs(ret1_douglas_peucker, q)) "
+                 # RECB: ghost flag "the recursive branch was taken" (so that the proof steps below do not repeat the code's test)
+                 at={"n = len(L)": ["ghost RECB = False"],
+                     "XY2 = tracklib.Track(L[imax:n], user_id=track.uid, track_id=track.tid, base=track.base)": ["ghost RECB = True"]},
+                 hints=[("left-part-indices", "implies(RECB, all(idxin(%s, obs(ret1_douglas_peucker, q)) == idxin(pts(XY1), obs(ret1_douglas_peucker, q)) "
                          "and idxin(%s, obs(ret1_douglas_peucker, q)) < imax for q in range(0, npts(ret1_douglas_peucker))))" % (L, L)),
-                        ("right-part-indices", "implies((npts(track) > 2 and not (dmax < eps)), all(idxin(%s, obs(ret2_douglas_peucker, q)) == idxin(pts(XY2), obs(ret2_douglas_peucker, q)) + imax "
+                        ("right-part-indices", "implies(RECB, all(idxin(%s, obs(ret2_douglas_peucker, q)) == idxin(pts(XY2), obs(ret2_douglas_peucker, q)) + imax "
                          "and idxin(%s, obs(ret2_douglas_peucker, q)) >= imax for q in range(0, npts(ret2_douglas_peucker))))" % (L, L)),
                         ("small-track-is-returned-whole", "implies(npts(track) <= 2, npts(result) == npts(track) and all(obs(result, q) is old(pts(track))[q] and idxin(old(pts(track)), obs(result, q)) == q "
                          "for q in range(0, npts(track))))"),
-                        ("chord-only", "implies(npts(track) > 2 and dmax < eps, npts(result) == 2 and obs(result, 0) is old(pts(track))[0] and obs(result, 1) is old(pts(track))[npts(track) - 1] and "
+                        ("chord-only", "implies(npts(track) > 2 and not RECB, npts(result) == 2 and obs(result, 0) is old(pts(track))[0] and obs(result, 1) is old(pts(track))[npts(track) - 1] and "
                          "idxin(old(pts(track)), obs(result, 0)) == 0 and idxin(old(pts(track)), obs(result, 1)) == npts(track) - 1)"),
-                        ("left-part-ordered", "implies((npts(track) > 2 and not (dmax < eps)), all(implies(q < q2, idxin(old(pts(track)), obs(ret1_douglas_peucker, q)) < idxin(old(pts(track)), obs(ret1_douglas_peucker, q2))) "
+                        ("left-part-ordered", "implies(RECB, all(implies(q < q2, idxin(old(pts(track)), obs(ret1_douglas_peucker, q)) < idxin(old(pts(track)), obs(ret1_douglas_peucker, q2))) "
                          "for q in range(0, npts(ret1_douglas_peucker)) for q2 in range(0, npts(ret1_douglas_peucker))))"),
-                        ("right-part-ordered", "implies((npts(track) > 2 and not (dmax < eps)), all(implies(q < q2, idxin(old(pts(track)), obs(ret2_douglas_peucker, q)) < idxin(old(pts(track)), obs(ret2_douglas_peucker, q2))) "
+                        ("right-part-ordered", "implies(RECB, all(implies(q < q2, idxin(old(pts(track)), obs(ret2_douglas_peucker, q)) < idxin(old(pts(track)), obs(ret2_douglas_peucker, q2))) "
                          "for q in range(0, npts(ret2_douglas_peucker)) for q2 in range(0, npts(ret2_douglas_peucker))))"),
-                        ("left-part-members", "implies((npts(track) > 2 and not (dmax < eps)), all(0 <= idxin(old(pts(track)), obs(ret1_douglas_peucker, q)) and old(pts(track))[idxin(old(pts(track)), obs(ret1_douglas_peucker, q))] is obs(ret1_douglas_peucker, q) "
+                        ("left-part-members", "implies(RECB, all(0 <= idxin(old(pts(track)), obs(ret1_douglas_peucker, q)) and old(pts(track))[idxin(old(pts(track)), obs(ret1_douglas_peucker, q))] is obs(ret1_douglas_peucker, q) "
                          "for q in range(0, npts(ret1_douglas_peucker))))"),
-                        ("right-part-members", "implies((npts(track) > 2 and not (dmax < eps)), all(idxin(old(pts(track)), obs(ret2_douglas_peucker, q)) < npts(track) and old(pts(track))[idxin(old(pts(track)), obs(ret2_douglas_peucker, q))] is obs(ret2_douglas_peucker, q) "
+                        ("right-part-members", "implies(RECB, all(idxin(old(pts(track)), obs(ret2_douglas_peucker, q)) < npts(track) and old(pts(track))[idxin(old(pts(track)), obs(ret2_douglas_peucker, q))] is obs(ret2_douglas_peucker, q) "
                          "for q in range(0, npts(ret2_douglas_peucker))))"),
-                        ("result-length", "implies((npts(track) > 2 and not (dmax < eps)), npts(result) == npts(ret1_douglas_peucker) + npts(ret2_douglas_peucker))"),
-                        ("result-left", "implies((npts(track) > 2 and not (dmax < eps)), all(obs(result, q) is obs(ret1_douglas_peucker, q) for q in range(0, npts(ret1_douglas_peucker))))"),
+                        ("result-length", "implies(RECB, npts(result) == npts(ret1_douglas_peucker) + npts(ret2_douglas_peucker))"),
+                        ("result-left", "implies(RECB, all(obs(result, q) is obs(ret1_douglas_peucker, q) for q in range(0, npts(ret1_douglas_peucker))))"),
                         # the same, indexed by the position in the result (so that it can be used from a position of the result)
-                        ("result-right-by-position", "implies((npts(track) > 2 and not (dmax < eps)), all(implies(q >= npts(ret1_douglas_peucker), "
+                        ("left-part-within-tolerance", "implies(%s and imax >= 2 and 0 <= K0 and K0 < imax, any(%s <= eps for j in range(0, npts(ret1_douglas_peucker) - 1)))"
+                         % (REC, seg("K0", "ret1_douglas_peucker", "j"))),
+                        ("right-part-within-tolerance", "implies(%s and imax <= K0 and K0 < npts(track), any(%s <= eps for j in range(0, npts(ret2_douglas_peucker) - 1)))"
+                         % (REC, seg("K0", "ret2_douglas_peucker", "j"))),
+                        ("result-right-by-position", "implies(RECB, all(implies(q >= npts(ret1_douglas_peucker), "
                          "obs(result, q) is obs(ret2_douglas_peucker, q - npts(ret1_douglas_peucker))) for q in range(0, npts(result))))")],
                  loops={"1": LoopSpec(inv=["not isnan(dmax) and dmax >= 0", "0 <= imax and imax < n",
-                                           "implies(dmax > 0, 1 <= imax and imax <= n - 2)", "implies(imax == 0, dmax == 0)"])},
+                                           "implies(dmax > 0, 1 <= imax and imax <= n - 2)", "implies(imax == 0, dmax == 0)",
+                                           "all(dseg(X(track, r), Y(track, r), X(track, 0), Y(track, 0), X(track, n - 1), Y(track, n - 1)) <= dmax for r in range(0, i))"])},
                  ensures=[("new-track", "isnew(result)"),
                           ("same-size-when-at-most-two-fixes", "implies(%s <= 2, npts(result) == %s)" % (n, n)),
                           ("keeps-the-first-fix", "implies(%s >= 1, npts(result) >= 1 and obs(result, 0) is %s[0])" % (n, L)),
@@ -113,6 +126,9 @@ def register(reg):
                            "%s[idxin(%s, obs(result, q))] is obs(result, q) for q in range(0, npts(result)))" % (L, L, n, L, L)),
                           ("in-the-original-order", "all(implies(q < q2, idxin(%s, obs(result, q)) < idxin(%s, obs(result, q2))) "
                            "for q in range(0, npts(result)) for q2 in range(0, npts(result)))" % (L, L)),
+                          # K0 is a ghost parameter (an arbitrary index): the clause holds for every input fix
+                          ("every-input-fix-within-the-tolerance-of-the-result",
+                           "implies(npts(track) >= 2 and 0 <= K0 and K0 < npts(track), any(%s <= eps for j in range(0, npts(result) - 1)))" % seg("K0", "result", "j")),
                           ("source-unchanged", "same(pts(track), %s)" % L)]))
 
 
